@@ -45,6 +45,9 @@ def render_mast(rng, t, top=True, parent=None, loose=True):
             m = re.match(r"^(\w+)\s*(==|!=|<=|>=|<|>|~=)\s*(['\"].*['\"])$", a)
             if m:
                 a = m.group(1) + w() + m.group(2) + w() + m.group(3)
+        if loose and ' not in ' in a and rng.random() < .6:
+            # any white space, at least one character, between `not` and `in`
+            a = a.replace(' not in ', ' not' + rng.choice(['\t', '  ', ' \t', '\t ']) + 'in ', 1)
         if loose and rng.random() < .15:
             return '(' + w() + a + w() + ')'
         return a
